@@ -366,3 +366,76 @@ B("C13", "add-statements-reordered", CONT,
         self.bound_inf = min(segment.start, self.bound_inf)
         new_unit = Unit(segment, annotation)
         self._annotations[annotator].add(new_unit)""")
+
+# =============================================================================================
+# C16
+# =============================================================================================
+REGRESSIONS.append(dict(prop="C16", id="regression/F23-pivot-zone-stretches-outside-segments", patch="eff816a.diff", rule="R-C16-1"))
+M("C16", "left-clamp-missing", SAM,
+  "new_segments.append(Segment(segment.start, min(segment.end, pivot - dist)))",
+  "new_segments.append(Segment(segment.start, pivot - dist))", "R-C16-1")
+M("C16", "right-piece-dropped-when-split", SAM,
+  """                    new_segments.append(Segment(segment.start, pivot - dist))
+                    new_segments.append(Segment(pivot + dist, segment.end))""",
+  """                    new_segments.append(Segment(segment.start, pivot - dist))""", "R-C16-1")
+M("C16", "zone-test-off-by-side", SAM,
+  "            if segment.start >= pivot - dist:\n                if segment.end <= pivot + dist:",
+  "            if segment.start >= pivot - dist:\n                if segment.end <= pivot - dist:", "R-C16-1")
+M("C16", "wrapped-end-not-shifted", SAM,
+  "                                                  unit.segment.end + pivot + bound_inf - bound_sup),",
+  "                                                  unit.segment.end + pivot),", "R-C16-2")
+M("C16", "wrap-by-bound-sup", SAM,
+  """                                          Segment(unit.segment.start + pivot + bound_inf - bound_sup,
+                                                  unit.segment.end + pivot + bound_inf - bound_sup),""",
+  """                                          Segment(unit.segment.start + pivot - bound_sup,
+                                                  unit.segment.end + pivot - bound_sup),""", "R-C16-2",
+  "wrap by the upper bound instead of the continuum's length (differs when bound_inf != 0)")
+M("C16", "wrap-test-on-end", SAM,
+  "                    if unit.segment.start + pivot > bound_sup:",
+  "                    if unit.segment.end + pivot > bound_sup:", "R-C16-2")
+M("C16", "dist-is-full-length", SAM,
+  "        min_dist_between_pivots = continuum.avg_length_unit / 2",
+  "        min_dist_between_pivots = continuum.avg_length_unit", "R-C16-3")
+M("C16", "source-from-all-annotators", SAM,
+  "                rnd_annotator = np.random.choice(annotators)",
+  "                rnd_annotator = np.random.choice(continuum.annotators)", "R-C16-3")
+M("C16", "float-in-int-mode", SAM,
+  "            return int(np.random.uniform(segment.start, segment.end))",
+  "            return np.random.uniform(segment.start, segment.end)", "R-C16-3")
+M("C16", "pivot-zone-not-removed", SAM,
+  "                    segments_available = self._remove_pivot_segment(pivot, segments_available, min_dist_between_pivots)",
+  "                    self._remove_pivot_segment(pivot, list(segments_available), min_dist_between_pivots)", "R-C16-3")
+M("C16", "label-dropped-when-wrapped", SAM,
+  """                                                  unit.segment.end + pivot + bound_inf - bound_sup),
+                                          unit.annotation)""",
+  """                                                  unit.segment.end + pivot + bound_inf - bound_sup),
+                                          None)""", "R-C16-2")
+B("C16", "subtraction-with-clamps", SAM,
+  """            if segment.start >= pivot - dist:
+                if segment.end <= pivot + dist:
+                    continue
+                else:
+                    new_segments.append(Segment(max(segment.start, pivot + dist), segment.end))
+            else:
+                if segment.end > pivot + dist:
+                    new_segments.append(Segment(segment.start, pivot - dist))
+                    new_segments.append(Segment(pivot + dist, segment.end))
+                else:
+                    new_segments.append(Segment(segment.start, min(segment.end, pivot - dist)))""",
+  """            lo, hi = pivot - dist, pivot + dist
+            if segment.start < lo:
+                new_segments.append(Segment(segment.start, min(segment.end, lo)))
+            if hi < segment.end:
+                new_segments.append(Segment(max(hi, segment.start), segment.end))""")
+B("C16", "subtraction-rearranged-tests", SAM,
+  "            if segment.start >= pivot - dist:\n                if segment.end <= pivot + dist:",
+  "            if segment.start + dist >= pivot:\n                if segment.end - dist <= pivot:")
+B("C16", "wrap-shift-factored", SAM,
+  """                        new_continuum.add(new_annotator,
+                                          Segment(unit.segment.start + pivot + bound_inf - bound_sup,
+                                                  unit.segment.end + pivot + bound_inf - bound_sup),
+                                          unit.annotation)""",
+  """                        new_continuum.add(new_annotator,
+                                          Segment(unit.segment.start + pivot - (bound_sup - bound_inf),
+                                                  unit.segment.end - (bound_sup - bound_inf) + pivot),
+                                          unit.annotation)""")
